@@ -19,7 +19,7 @@ LEVEL = "model_checking"
 RULE = ("explicit-state search over operation histories (E3): a state is the history that reaches it, rebuilt on a fresh virtual "
         "loop by replaying the real LAN object against the reference V3 device. Events: send answered promptly / device silent / "
         "error packet / peer close / handshake unanswered / connect refused, explicit authenticate with good or unknown credentials, unanswered or with the connect refused, "
-        "clock jump past the 12 h authentication lifetime and of 7 h (two of them exceed it), clock jumps past (and of 0.6x, and of 24 h + 10 s) the configured connection lifetime, cancellation of a "
+        "clock jump past the 12 h authentication lifetime (by 1 h and by 1 min) and of 7 h (two of them exceed it), clock jumps past (and of 0.6x, and of 24 h + 10 s) the configured connection lifetime, cancellation of a "
         "send and of an explicit authenticate at every interval between loop events. (a) full history tree without de-duplication to depth D1; (b) breadth-first "
         "search with de-duplication on a name-agnostic structural fingerprint of the library objects + device state to depth D2. "
         "A wire monitor (I1 only handshakes with the token before an accepted handshake; I2 data verifies under the session key of "
@@ -39,7 +39,7 @@ WRAPS = tuple(1 << k for k in range(8, 17))
 BASE_EVENTS = [
     ("send", "ok"), ("send", "silent"), ("send", "error"), ("send", "close"), ("send", "hs-silent"), ("send", "refuse"),
     ("auth", "good"), ("auth", "bad"), ("auth", "hs-silent"), ("auth", "refuse"),
-    ("jump", "12h"), ("jump", "life"), ("jump", "part"), ("jump", "day"), ("jump", "7h"),
+    ("jump", "12h"), ("jump", "life"), ("jump", "part"), ("jump", "day"), ("jump", "7h"), ("jump", "12h+"),
 ]
 
 
@@ -128,7 +128,7 @@ class Run:
         res = None
         if kind == "jump":
             # "day": one whole day and a few seconds (a multiple of 24 h plus less than the lifetime)
-            w.loop.jump({"12h": 13 * 3600, "life": LIFETIME + 1, "part": LIFETIME * 0.6, "day": 86400 + 10, "7h": 7 * 3600}[arg])
+            w.loop.jump({"12h": 13 * 3600, "12h+": 12 * 3600 + 60, "life": LIFETIME + 1, "part": LIFETIME * 0.6, "day": 86400 + 10, "7h": 7 * 3600}[arg])
             mark["outcome"] = "jumped"
             return
         self.cur = arg if arg not in ("ok", "good", "bad", "cancel", "cancel-auth") else None
@@ -264,12 +264,12 @@ def monitor(run: Run):
         if not later:
             continue
         first = later[0]
-        if m["ev"][1] in ("12h", "life", "day") and first.get("ptype") != rc.T_HANDSHAKE_REQ:
+        if m["ev"][1] in ("12h", "12h+", "life", "day") and first.get("ptype") != rc.T_HANDSHAKE_REQ:
             out.append((f"I4 first packet after jump>{m['ev'][1]} is not a handshake", f"type {first.get('ptype')}"))
         if m["ev"][1] in ("life", "day") and run.life and m["live"] is not None:
             if any(e["conn"] == m["live"] for e in later):
                 out.append(("I4 packet written on a connection past its lifetime", f"conn {m['live']}"))
-        if m["ev"][1] in ("12h", "day"):
+        if m["ev"][1] in ("12h", "12h+", "day"):
             # no data may be written after the authentication lifetime until a new handshake has SUCCEEDED
             # (accepted by the device and its reply delivered, i.e. not lost and not answered with an error)
             for e in later:
@@ -465,6 +465,12 @@ def run_long(st: Stats, n):
     async def drive():
         await lan.authenticate(token, key)
         for i in range(n):
+            if i == 2:
+                # one transmission early in the session goes unanswered (the retransmission is answered): a request id that
+                # was never answered must not matter one counter revolution later
+                def ignore_once(conn, p, entry):
+                    dev.on_enc_request = None
+                dev.on_enc_request = ignore_once
             r = await lan.send(CMD)
             if len(r) != 1:
                 return i, r
@@ -484,7 +490,7 @@ def run_long(st: Stats, n):
         return n, None
 
     try:
-        out = w.run(drive(), budget=7200)
+        out = w.run(drive(), budget=7200 if n > 10000 else 100)
         case = {"long": n}
         if out[0] != "ok":
             st.violation(f"long session: {exc_class(out)} after {len(dev.rx)} packets", case, "no exception", str(out[1])[:200])
